@@ -298,6 +298,11 @@ func (rw *rewriter) run() {
 				n.Fun = sel("vrt", "Munmap")
 				rw.needVrt = true
 				rw.stats["munmap"]++
+			} else if strings.HasPrefix(rw.name, "event_dispatcher") && isPkgSel(n.Fun, "syscall", "Syscall") && len(n.Args) == 4 && isPkgSel(n.Args[0], "syscall", "SYS_WRITE") {
+				// connEventHandler.write: the kernel may take fewer bytes than offered; the explorer owns that answer (A9)
+				n.Fun = sel("vrt", "SyscallWrite")
+				rw.needVrt = true
+				rw.stats["syswrite"]++
 			} else if rw.name == "block_io.go" && isPkgSel(n.Fun, "syscall", "Read") {
 				n.Fun = sel("vrt", "SysRead")
 				rw.needVrt = true
